@@ -100,6 +100,11 @@ impl<S: AsyncRead + Unpin> DltStreamReader<S> {
 
         let (_, message_len) = parse_length(&self.buffer[storage_len..header_len])?;
         let total_len = storage_len + message_len as usize;
+        if total_len < header_len {
+            return Err(DltParseError::ParsingHickup(format!(
+                "declared message length {message_len} is smaller than the standard header"
+            )));
+        }
         debug_assert!(total_len <= self.buffer.len());
 
         self.source
